@@ -19,6 +19,7 @@ import (
 	"errors"
 	"fmt"
 	"os"
+	"strings"
 	"sync"
 	"testing"
 	"time"
@@ -397,6 +398,14 @@ func (st *c20HistStats) add(v *c20HistViol) {
 
 var c20Contents = [4]string{"plain message", "message with EXC inside", "message with UNL inside", "plain message"}
 
+// class "e" is realised alternately by a record matching the first and the second exception
+func c20Content(kind, step int) string {
+	if kind == 1 && step%2 == 1 {
+		return "message with SHX inside"
+	}
+	return c20Contents[kind]
+}
+
 func c20RunHistGroup(id int, cases []*c20HistCase, st *c20HistStats) {
 	c0 := cases[0]
 	unit := time.Hour // one abstract time unit; the pipeline's own maintenance ticker never fires during the run
@@ -404,11 +413,23 @@ func c20RunHistGroup(id int, cases []*c20HistCase, st *c20HistStats) {
 		Decoder:  "cri",
 		Antispam: AntispamSettings{Threshold: c0.T, MaintenanceInterval: time.Duration(c0.I) * unit},
 	}
-	exc := antispam.Exceptions{{RuleSet: matchrule.RuleSet{
-		Name:  "c20exc",
-		Cond:  matchrule.CondOr,
-		Rules: []matchrule.Rule{{Mode: matchrule.ModeContains, Values: []string{"EXC"}}},
-	}}}
+	exc := antispam.Exceptions{
+		{RuleSet: matchrule.RuleSet{
+			Name:  "c20exc",
+			Cond:  matchrule.CondOr,
+			Rules: []matchrule.Rule{{Mode: matchrule.ModeContains, Values: []string{"EXC"}}},
+		}},
+		// an inverted rule whose value is longer than any line (the CRI line is what IsSpam is handed):
+		// "contains SHX and does not end with <200 x>"
+		{RuleSet: matchrule.RuleSet{
+			Name: "c20shx",
+			Cond: matchrule.CondAnd,
+			Rules: []matchrule.Rule{
+				{Mode: matchrule.ModeSuffix, Values: []string{strings.Repeat("x", 200)}, Invert: true},
+				{Mode: matchrule.ModeContains, Values: []string{"SHX"}},
+			},
+		}},
+	}
 	exc.Prepare()
 	s.Antispam.Exceptions = exc
 	if c0.Mode == "rules" {
@@ -450,7 +471,7 @@ func c20RunHistGroup(id int, cases []*c20HistCase, st *c20HistStats) {
 				}
 				now += sp[c20Dt]
 				x := sp[c20Src]
-				line := fmt.Sprintf("%s stdout F %s\n", base.Add(time.Duration(now)*unit).Format("2006-01-02T15:04:05.000000000Z"), c20Contents[sp[c20Kind]])
+				line := fmt.Sprintf("%s stdout F %s\n", base.Add(time.Duration(now)*unit).Format("2006-01-02T15:04:05.000000000Z"), c20Content(sp[c20Kind], i))
 				seq := p.In(SourceID(uint64(ci)*8+uint64(x)), fmt.Sprintf("src%d", x), Offsets{current: int64(i + 1)}, []byte(line), sp[c20Kind] == 3, nil)
 				verdict := seq == EventSeqIDError
 				if !verdict {
